@@ -20,8 +20,13 @@ Quick2Combos == {<<"default", "degree">>, <<"default", "degC">>, <<"default", "k
                  <<"custom", "mile">>, <<"customcgs", "foo">>}
 RepPaths == {"pickle4", "deepcopy", "dot_copy", "str_roundtrip", "json_registry", "savetxt2", "string_roundtrip", "unit_copy_deep"}
 BothOrders == {"of", "rf"}
+PlainPre == {<<"idlast", "warm">>}
+OtherPre == {<<"idfirst", "warm">>, <<"idfirst", "cold">>, <<"idlast", "cold">>}
+AllPre == PlainPre \cup OtherPre
+PreCombos == {<<"custom", "foo">>, <<"custom", "kpfoo">>, <<"custom", "mile">>, <<"customcgs", "km/hr">>, <<"default", "degC">>}
+PrePaths == {"pickle4", "pickle_nested", "copy_copy", "dot_copy", "deepcopy", "unit_copy_deep", "json_registry", "str_roundtrip"}
 
-Case == [tag |-> "CASE", cls |-> obj.cls, reg |-> obj.reg, unit |-> obj.unit, chain |-> chain, order |-> IF order = "" THEN "of" ELSE order,
+Case == [tag |-> "CASE", cls |-> obj.cls, reg |-> obj.reg, unit |-> obj.unit, pre |-> obj.pre, memo |-> obj.memo, chain |-> chain, order |-> IF order = "" THEN "of" ELSE order,
          fups |-> [i \in DOMAIN fups |-> fups[i].f], alive |-> st.alive,
          model |-> [i \in DOMAIN fups |-> IF fups[i].rest /\ fups[i].orig THEN 0 ELSE 1],
          restorefails |-> ModelRestoreFails]
